@@ -147,6 +147,39 @@ theorem walkFrom_set_off (m : PMem) (p4 : Word) (hwf : WF m p4) (p : List Nat) (
     · have hP' : bitP e = false := by simpa using hP
       simp [hP']
 
+/-- The mapping part of a translation (everything except the effective rights). -/
+def Xlat.core (x : Xlat) : Nat × Nat × Nat × Word := (x.base, x.size, x.off, x.flags)
+
+/-- The accumulated rights do not influence which mapping a walk finds. -/
+theorem walkFrom_core (m : PhysMem) (va : Nat) :
+    ∀ (lvl : Nat) (t : Word) (rw us rw' us' : Bool),
+      (walkFrom m lvl t va rw us).map Xlat.core = (walkFrom m lvl t va rw' us').map Xlat.core := by
+  intro lvl
+  induction lvl with
+  | zero => intros; rfl
+  | succ lvl ih =>
+    intro t rw us rw' us'
+    rw [walkFrom_succ, walkFrom_succ]
+    generalize m t (vaIdx (lvl + 1) va) = e
+    unfold entryStep
+    by_cases hP : bitP e = true
+    · by_cases h4 : lvl + 1 = 4
+      · have h3 : lvl = 3 := by omega
+        subst h3
+        by_cases hS : bitPS e = true
+        · simp [hP, hS]
+        · simp only [hP, hS, Bool.not_true, Bool.false_eq_true, if_false, if_true]
+          exact ih _ _ _ _ _
+      · by_cases h1 : lvl + 1 = 1
+        · simp [hP, h4, h1, leafXlat, Xlat.core]
+        · by_cases hS : bitPS e = true
+          · simp only [hP, hS, h4, h1, Bool.not_true, Bool.false_eq_true, if_false, if_true, Option.map_some]
+            simp only [leafXlat, Xlat.core]
+            split <;> (try split) <;> rfl
+          · simp only [hP, hS, h4, h1, Bool.not_true, Bool.false_eq_true, if_false, Nat.add_sub_cancel]
+            exact ih _ _ _ _ _
+    · simp [hP]
+
 /-- Off-path addresses keep their whole translation (including effective rights). -/
 theorem walk_set_off (m : PMem) (p4 : Word) (hwf : WF m p4) (p : List Nat) (f : Word) (i : Nat) (v : Word)
     (hp : tblAt m p4 p = some f) (hpl : p.length ≤ 3) (hpi : IdxOK p) (va : Nat)
